@@ -255,7 +255,7 @@ func c11NewCase(rec *c11Rec, raw []byte, variant int, cell, entry, cb, shape str
 // ---------------------------------------------------------------------------------------
 // sort
 
-var c11SortVariants = []string{"Sort", "SortPtr", "Stable", "Slice", "SliceStable", "SortValPtr"}
+var c11SortVariants = []string{"Sort", "SortPtr", "Stable", "Slice", "SliceStable", "SortValPtr", "SortPtrVar"}
 
 // receiver shapes of the interpreted type converted to a compiled interface
 const (
@@ -266,11 +266,11 @@ const (
 
 func c11RenderSort(rec *c11Rec, raw []byte, variant int) *ProgCase {
 	v := c11SortVariants[variant%len(c11SortVariants)]
-	cb := "sort.Interface<-" + map[string]string{"Sort": c11RecvVal, "Stable": c11RecvVal, "SortPtr": c11RecvPtr, "SortValPtr": c11RecvValPtr}[v]
+	cb := "sort.Interface<-" + map[string]string{"Sort": c11RecvVal, "Stable": c11RecvVal, "SortPtr": c11RecvPtr, "SortValPtr": c11RecvValPtr, "SortPtrVar": c11RecvPtr}[v]
 	if strings.HasPrefix(v, "Slice") {
 		cb = "func(int, int) bool"
 	}
-	entry := map[string]string{"Sort": "sort.Sort", "SortPtr": "sort.Sort", "SortValPtr": "sort.Sort", "Stable": "sort.Stable", "Slice": "sort.Slice", "SliceStable": "sort.SliceStable"}[v]
+	entry := map[string]string{"Sort": "sort.Sort", "SortPtr": "sort.Sort", "SortPtrVar": "sort.Sort", "SortValPtr": "sort.Sort", "Stable": "sort.Stable", "Slice": "sort.Slice", "SliceStable": "sort.SliceStable"}[v]
 	pc, sfx := c11NewCase(rec, raw, variant, "", entry, cb, "sort/"+v)
 	desc := rec.Ord == "desc"
 	keys := c11IntList(rec.In)
@@ -282,6 +282,10 @@ func c11RenderSort(rec *c11Rec, raw []byte, variant int) *ProgCase {
 		fmt.Fprintf(&d, "\tx := PXv{S: mk(%s), Desc: %v}\n\tsort.%s(x)\n\treturn ids(x.S)\n", keys, desc, v)
 	case "SortPtr":
 		fmt.Fprintf(&d, "\tx := &PXp{S: mk(%s), Desc: %v}\n\tsort.Sort(x)\n\treturn ids(x.S)\n", keys, desc)
+	case "SortPtrVar":
+		// the interface value is made from a variable that is assigned another value before the
+		// interface is used: the interface must still hold the first value
+		fmt.Fprintf(&d, "\tx := &PXp{S: mk(%s), Desc: %v}\n\tkeep := x\n\tvar si sort.Interface = x\n\tx = &PXp{S: nil, Desc: %v}\n\tsort.Sort(si)\n\t_ = x\n\treturn ids(keep.S)\n", keys, desc, desc)
 	case "SortValPtr":
 		fmt.Fprintf(&d, "\tx := PXv{S: mk(%s), Desc: %v}\n\tsort.Sort(&x)\n\treturn ids(x.S)\n", keys, desc)
 	default:
